@@ -14,11 +14,12 @@ CLAIMED = {
     "C01": dict(
         text="Theorems (all closed oriented triangle chains, any size): the code's signed volume, curl-theorem centroid and "
              "4-point-quadrature inertia tensor + parallel-axis shift equal the signed cone moments (exact integrals); "
-             "translation invariance/covariance of the moments; Paramcoq transfer Q-model -> R-model. Tie to the code: "
+             "translation invariance/covariance of the moments; level 0: the tetrahedron moments m0/m1/m2 are the Coquelicot triple integrals of "
+             "1, x_i, x_i x_j over the signed tetrahedron; Paramcoq transfer Q-model -> R-model. Tie to the code: "
              "hand-written executable model run (extracted + vm_compute sample) on the implementation's own simplices for "
              "generated convex sets in 3 vertex orders; qhull certified per instance (closed chain, supporting planes).",
         design="§4 C01", technique="Coq proof (closed-chain cancellation, field identities, Paramcoq transfer) + model/implementation correspondence on exact rationals",
-        note="qhull is a certified oracle; divergence theorem (cone sums = Lebesgue integrals) taken as definition; face areas use one float sqrt per triangle."),
+        note="qhull is a certified oracle; per-tetrahedron integrals proved, the tiling of the solid by signed cones (divergence theorem) taken as definition; face areas use one float sqrt per triangle."),
     "C04": dict(
         text="Theorems (all vertex cycles, any length): the code's projection-based signed-area sum is the p-th component of the vector area (cyclic "
              "re-indexing), hence for a planar polygon equals (N.A)/(N.N) whichever axis is projected out; reversal negates and cyclic shifts preserve it; "
@@ -193,7 +194,8 @@ CLAIMED = {
         note="reference (V,E,F) table hand-written; geometric facts need the hull and are decided by the exhaustive correspondence (1e-6); known finding science-J86-edge-precision."),
     "C12": dict(
         text="PARTIAL. Theorems for the code's polygon line-integral formula: for a triangle in the xy-plane and an in-plane q in generic position the formula "
-             "EQUALS the Fourier integral J*intint exp(-i q.r) over the affinely parametrised triangle (Coquelicot double RInt, real and imaginary parts); "
+             "EQUALS the Fourier integral J*intint exp(-i q.r) over the affinely parametrised triangle (Coquelicot double RInt, real and imaginary parts), "
+             "and for xy-plane polygons of ANY size it equals the sum of those integrals over the fan triangles (generic q); "
              "every vertex cycle: each edge term IS -i((e x q).n/q^2) times the plane wave "
              "integrated along the edge (Coquelicot RInt, the sinc closed form proved incl. q.e = 0); the polygon amplitude is the sum of the amplitudes of its "
              "fan triangles (chord cancellation); F(-q) = conj F(q); translation by t multiplies by "
